@@ -185,10 +185,36 @@ def run(rep):
         if bad:
             rep.finding('C02/K-islands/%s' % cls, w, detail, kernel='K-islands')
             break
+    # rounding edge: a pixel whose signal-to-noise QUOTIENT is one ulp below the flood clip while value >= clip * rms as a
+    # PRODUCT: it is not a member, so it must not link its neighbours either
+    for w in rounding_edge_cases():
+        bad, cls, detail = replay_case(w)
+        rep.validated_runs(1)
+        if bad:
+            rep.finding('C02/K-islands/rounding-edge:%s' % cls, w, detail, kernel='K-islands')
+            break
     bad, cls, detail = many_groups_oracle()
     rep.validated_runs(1)
     if bad:
         rep.finding('C02/K-islands/%s' % cls, dict(kind='many-groups'), detail, kernel='K-islands')
+
+
+def rounding_edge_cases(n=6):
+    import random
+    rng = random.Random(11)
+    out = []
+    for flood in (4.3, 3.7, 2.9):
+        tries = 0
+        while len([o for o in out if o['flood'] == flood]) < n // 3 and tries < 200000:
+            tries += 1
+            r = rng.uniform(0.5, 2.0)
+            v = flood * r
+            if v / r < flood:            # product says "at the clip", quotient says "below"
+                im = [[10.0 * 1.0, v, 1.2 * flood, 0.0, 0.0]]
+                rms = [[1.0, r, 1.0, 1.0, 1.0]]
+                out.append(dict(R=1, C=5, im=im, bkg=[[0.0] * 5], rms=rms, seed=flood + 2.0, flood=flood))
+                out.append(dict(R=3, C=3, im=[[10.0, 0.0, 0.0], [0.0, v, 0.0], [0.0, 0.0, 1.2 * flood]], bkg=[[0.0] * 3] * 3, rms=[[1.0, 1.0, 1.0], [1.0, r, 1.0], [1.0, 1.0, 1.0]], seed=flood + 2.0, flood=flood))
+    return out
 
 
 def many_groups_oracle(N=1500, seed=3):
